@@ -1634,6 +1634,20 @@ fn wall_clock_cases(ctx: &mut Ctx) {
             let warm_old: String = (0..(7 + 13 * k)).map(|i| format!("w{}\n", i)).collect();
             let warm_new: String = (0..(7 + 13 * k)).map(|i| if i % 3 == 0 { format!("v{}\n", i) } else { format!("w{}\n", i) }).collect();
             let _ = catch_unwind(AssertUnwindSafe(|| TextDiff::configure().algorithm(alg).deadline(Instant::now() + hour_ahead()).diff_lines(&warm_old, &warm_new).ops().len()));
+            // ... also for a pair with a SHORT edit script (two single-line changes far apart): a few probes answered "in
+            // time" by mistake are enough to let this diff run to completion instead of giving up
+            let small_old: String = (0..30).map(|i| format!("s{}\n", i)).collect();
+            let small_new: String = (0..30).map(|i| if i == 4 || i == 25 { format!("S{}\n", i) } else { format!("s{}\n", i) }).collect();
+            let cs = TextCfg { kind: Kind::Lines, alg, nlt: None, dl: Some(0) };
+            let small_virt0 = text_eval_mode(&cs, DlHow::Deadline, Mode::Str, small_old.as_bytes(), small_new.as_bytes()).map(|e| e.ops);
+            verif_hooks::clear_clock();
+            let _ = catch_unwind(AssertUnwindSafe(|| TextDiff::configure().algorithm(alg).deadline(Instant::now() + hour_ahead()).diff_lines(&warm_old, &warm_new).ops().len()));
+            let got_small = catch_unwind(AssertUnwindSafe(|| TextDiff::configure().algorithm(alg).deadline(past).diff_lines(&small_old, &small_new).ops().to_vec())).ok();
+            if got_small != small_virt0 {
+                ctx.violation("C07", &req, format!("after a diff under a live deadline (warm-up {}), a short diff under a deadline in the past does not give the expired result: state leaks between calls", k));
+                ctx.violation("C20", &req, "the same inputs under the same (passed) deadline give different ops depending on what ran before".to_string());
+            }
+            let _ = catch_unwind(AssertUnwindSafe(|| TextDiff::configure().algorithm(alg).deadline(Instant::now() + hour_ahead()).diff_lines(&warm_old, &warm_new).ops().len()));
             for rep in 0..2 {
                 let got = catch_unwind(AssertUnwindSafe(|| TextDiff::configure().algorithm(alg).deadline(past).diff_lines(&old, &new).ops().to_vec())).ok();
                 if got != virt0 {
